@@ -329,29 +329,41 @@ def digitValue (c : Nat) : Nat :=
 def floatAccum (base : Nat) (ds : List Nat) : FV :=
   ds.foldl (fun v c => add (mul v (ofNat base)) (ofNat (digitValue c))) zero
 
-/-- builtinGlobalParseInt (builtin.go:57); `radix` is the result of toInt32(argument 1) -/
-def parseIntCore (s : Str) (radix : Int) : FV :=
-  let input := trim OttoVerif.PN.wsRunes s
+/-- the sign switch (builtin.go:66) -/
+def signSplit (input : Str) : Bool × Str :=
+  match input with
+  | [] => (false, input)
+  | c :: r => if c = 43 then (false, r) else if c = 45 then (true, r) else (false, input)
+
+/-- the `0x` strip (builtin.go:85) -/
+def hexStrip (strip : Bool) (input : Str) (radix : Nat) : Str × Nat :=
+  match input with
+  | a :: c :: r => if a = 48 ∧ strip ∧ (c = 120 ∨ c = 88) then (r, 16) else (input, radix)
+  | _ => (input, radix)
+
+/-- builtinGlobalParseInt (builtin.go:57) after the Trim; `radix` is the result of toInt32(argument 1) -/
+def parseIntBody (input : Str) (radix : Int) : FV :=
   if input.isEmpty then .nan else
-  let (negative, input) : Bool × Str := match input with
-    | 43 :: r => (false, r)
-    | 45 :: r => (true, r)
-    | _ => (false, input)
+  let negative := (signSplit input).1
+  let input := (signSplit input).2
   let bad : Bool := radix ≠ 0 ∧ (radix < 2 ∨ radix > 36)
   if bad then .nan else
   let strip : Bool := radix = 0 ∨ radix = 16
   let radix : Nat := if radix = 0 then 10 else radix.toNat
   if input.isEmpty then .nan else
-  let (input, radix) : Str × Nat := match input with
-    | 48 :: c :: r => if strip ∧ (c = 120 ∨ c = 88) then (r, 16) else (input, radix)
-    | _ => (input, radix)
-  let input := input.takeWhile (fun c => digitValue c < radix)
-  match GoStd.parseInt input radix with
+  let radix' := (hexStrip strip input radix).2
+  let input := (hexStrip strip input radix).1
+  let input := input.takeWhile (fun c => digitValue c < radix')
+  match GoStd.parseInt input radix' with
   | .ok value => ofInt (if negative then -value else value)      -- int64Value, read as a number
   | .range =>
-    let v := floatAccum radix input
+    let v := floatAccum radix' input
     if negative then mul v (ofInt (-1)) else v
   | .syntax => .nan
+
+/-- builtinGlobalParseInt (builtin.go:57) -/
+def parseIntCore (s : Str) (radix : Int) : FV :=
+  parseIntBody (trim OttoVerif.PN.wsRunes s) radix
 
 def parseInt (s : Str) (radixArg : Arg) : FV :=
   let r : Int := match radixArg with
